@@ -19,6 +19,8 @@ class Contract:
         self.requires = _lab(kw.pop("requires", []), "pre")
         self.ensures = _lab(kw.pop("ensures", []), "post")
         self.raises = kw.pop("raises", {})  # Exc -> cond string: raises Exc  <=>  cond  (given requires)
+        self.raises_only_if = kw.pop("raises_only_if", {})  # Exc -> cond: a raise of Exc implies cond (checked even when strict=False)
+        self.strict = kw.pop("strict", True)  # True: `raises` conditions are iff; False: they only forbid a normal return
         self.may_raise = kw.pop("may_raise", [])  # exception classes that may be raised without a stated condition
         self.ensures_raise = {k: _lab(v, "xpost") for k, v in kw.pop("ensures_raise", {}).items()}
         self.modifies = kw.pop("modifies", [])  # heap fields / 'global:<qn>' / 'ghost:<name>'
@@ -147,6 +149,8 @@ class Registry:
         def no_inline(*qns):
             reg.no_inline.update(qns)
 
+        from .sym_call import PYVAL
+        ns["PYVAL"] = PYVAL
         ns.update(contract=contract, field=field, glob=glob, record=record, uninterpreted=uninterpreted, lemma=lemma,
                   ghost=ghost, inline=inline, recursive=recursive, no_inline=no_inline, REG=reg)
         ns.update(self.shared)
